@@ -3,11 +3,14 @@ import reghist as rh
 from reghist import D, C, S, M, R, CA
 
 PARTIAL = [
-    'reading PIL text (read_pil) is not part of the histories',
-    'a held exception object (SingletonError.existing, traceback frames) is not a root of the model: the implementation runner drops the caught error before it observes',
-    'name_only_domain_full (Proofs/RegExamples.v): at the level of whole operations, the only object a name-only domain request creates is x* from a live x with its length; proved: C01_name_only (pure look-up, every class), and for requests with a length dom_request_result',
-    'counters_full (Proofs/RegExamples.v): a counter moves by exactly +1 and only for the class addressed with an automatic name; proved: C01_counters (no counter moves unless the outcome is Created or a failing user constructor), C15_frame (counters of all other classes untouched)',
-    "'unchanged' for refused requests is equality up to dead temporaries appended to the heap (Junk): same slots, same registries (as lists), same live objects; ids of dead temporaries are consumed",
+    "reading PIL text (read_pil) is not part of the histories",
+    "a held exception object (SingletonError.existing, traceback frames) is not a root of the model: the "
+    "implementation runner drops the caught error before it observes",
+    "name_only for domains at operation level is proved for names with an unstarred base (C01_name_only_domain); the "
+    "unguarded statement name_only_domain_full is refuted (C01_name_only_domain_refuted_for_double_star: "
+    "DomainS('a', 5); DomainS('a**') creates a** through a temporary a*, replayed on the implementation)",
+    "'unchanged' for refused requests is equality up to dead temporaries appended to the heap (Junk): same slots, same "
+    "registries (as lists), same live objects; ids of dead temporaries are consumed",
     "an object whose name is the string '+' used as a sequence element is outside the model (it is treated as a strand break)",
 ]
 
